@@ -119,8 +119,7 @@ func (t *CollectionType) IsAssignable(o px.Type, g px.Guard) bool {
 	case *TupleType:
 		osz = o.givenOrActualSize
 	case *StructType:
-		n := int64(len(o.elements))
-		osz = NewIntegerType(n, n)
+		osz = o.Size()
 	default:
 		return false
 	}
